@@ -33,6 +33,8 @@ How Python objects are represented (fixed vocabulary: coq/Lib/PyObj.v):
   argument object (Source.event_map's setter freezes the map it is given; Monitor.__init__ passes its argument
   on to it) the callee's result carries the object's new state and the caller's variable is rebound to that result
   (the stored reference and the argument are the same Python object).
+* mutable objects (dict, EventMap, Module, memory map) have ONE name each: `x = <existing mutable object>` aborts, so
+  no update can reach an object through an alias the translation does not see.
 * a generator method returns the list of what it yields, in order (so it can be iterated any number of times and
   every call yields afresh: a generator that keeps an iterator between calls does not translate).
 * `enum.Enum` class -> an Inductive with one constructor per member, the list (member, value) and a boolean
@@ -99,6 +101,7 @@ def qs(s):
     return f'"{s}"%string'
 
 
+MUTABLE = ("sdict", "emap", "pyemap", "module", "mmtrace", "mux")    # objects that are updated in place
 ENTRY = ("tuple", ("obj", "Z"))
 MONITOR = ("tuple", (("list", ("tuple", ("str", "member"))), "pyemap"))
 EXC = {"ValueError": "ValueError", "TypeError": "TypeError", "KeyError": "KeyError", "AssertionError": "AssertionError"}
@@ -642,6 +645,8 @@ class Fn:
             v = self.expr(value, env, pre)
             if v.t == "mux":
                 raise Untranslatable("a Multiplexer may only be stored in an attribute of self")
+            if v.t in MUTABLE and not isinstance(value, ast.Call):
+                raise Untranslatable(f"second name for a mutable object ({v.t}): aliasing is not modelled")
             nm = self.fresh(t.id)
             env[t.id] = V(nm, v.t, v.x)
             return self.wrap(pre, f"(let {nm} := {v.s} in\n  {go(env)})")
